@@ -22,13 +22,14 @@ def run(s):
     qi = importlib.import_module("cij.io.traditional.qha_input")
     ed = importlib.import_module("cij.io.traditional.elast_dat")
     s.assume("A-PANDAS, A-CLICK", "decimal formatting / float parsing of CPython")
-    s.undecided_part("line structure of the phonon file for arbitrary counts (nv, nq, np) and of static tables with more than 12 rows, '%12.6f' composed with float() to the written precision, pandas printing and the "
+    s.undecided_part("line structure of the phonon file for arbitrary counts (nv, nq, np), '%12.6f' composed with float() to the written precision, pandas printing and the "
                      "fill command: bounded run-time contracts only")
     rnd = random.Random(s.seed)
     tmp = tempfile.mkdtemp(prefix="c17_")
     try:
         deductive(s, qi, ed, tmp)
         table_structure(s, ed)
+        table_loop_rule(s, ed)
         phonon_round_trip(s, qi, rnd, tmp)
         static_tables(s, ed, rnd, tmp)
         fill_command(s, ed, rnd, tmp)
@@ -624,6 +625,255 @@ def table_structure(s, ed):
              fallback=lambda: {"reproduced": False, "note": "bounded run C17.static_table_parse decides"})
 
 
+# ----------------------------------------------------------------------------------------------------------------------
+# the same for EVERY number of rows: Hoare loop rule applied in place, through the iterator protocol
+class _SymInt:
+    """the row count of the header as a symbolic natural number N >= 1"""
+
+    def __init__(self, z):
+        self.z = z
+
+    def _no(self, *a):
+        raise core.OutsideSubset("the reader computes with / branches on the row count in a way the in-place loop rule does not model")
+    __bool__ = __eq__ = __ne__ = __lt__ = __le__ = __gt__ = __ge__ = __add__ = __sub__ = __mul__ = __index__ = __int__ = _no
+    __hash__ = object.__hash__
+
+
+class _RuleState:
+    """shared by the symbolic file and the rule iterators of one run"""
+
+    def __init__(self, N, ncol, ending):
+        self.N, self.ncol, self.ending = N, ncol, ending
+        self.facts = [N >= 1]
+        self.loops = []          # per range(N) loop: dict(k=generic index, p0=entry position, stride=lines per iteration)
+        self.problems = []
+
+    def prove(self, goal):
+        from vf import smt
+        return smt.prove(goal, self.facts, timeout_ms=5000, fallback=False).status == core.PROVED
+
+
+class _SymFile:
+    """a table of N rows as a stream whose position is a term in N and the generic loop indices; the line at a position is decided by the region the position
+    provably lies in: 0 title, 1 header, 2 labels, [3, 3+N) rows, 3+N the ending line, (3+N, 3+2N] lattice rows"""
+
+    def __init__(self, st, labels):
+        self.st, self.labels, self.pos = st, labels, z3.IntVal(0)
+
+    def __enter__(self):
+        return self
+
+    def __exit__(self, *a):
+        return False
+
+    def __iter__(self):
+        raise core.OutsideSubset("the reader iterates over the file object itself")
+
+    def _line_at(self, idx):
+        st, N = self.st, self.st.N
+        idx = z3.simplify(idx)
+        if z3.is_int_value(idx):
+            i = idx.as_long()
+            if i == 0:
+                return _TLine("title", ["a", "title"])
+            if i == 1:
+                return _TLine("header", [_Field(("vref",)), _SymCountField(st.N), _Field(("mass",))])
+            if i == 2:
+                return _TLine("keys", ["V"] + list(self.labels))
+        if st.prove(z3.And(idx >= 3, idx < 3 + N)):
+            r = z3.simplify(idx - 3)
+            return _TLine("row", [_Field(("row", r, j)) for j in range(st.ncol + 1)])
+        if st.prove(idx == 3 + N):
+            return _TLine({"lattice": "latticehead", "eof": "eof", "blank": "blank"}[st.ending], ["lattice_a", "lattice_b", "lattice_c"] if st.ending == "lattice" else [])
+        if st.ending == "lattice" and st.prove(z3.And(idx > 3 + N, idx <= 3 + 2 * N)):
+            r = z3.simplify(idx - 4 - N)
+            return _TLine("lat", [_Field(("lat", r, j)) for j in range(3)])
+        if st.prove(idx > (3 + 2 * N if st.ending == "lattice" else 3 + N)):
+            return _TLine("eof", [])
+        raise core.OutsideSubset("the position %s of the reader cannot be placed in the table's layout" % idx)
+
+    def readline(self):
+        ln = self._line_at(self.pos)
+        if ln.kind != "eof":
+            self.pos = z3.simplify(self.pos + 1)
+        return ln
+
+    def __next__(self):
+        ln = self.readline()
+        if ln.kind == "eof":
+            raise StopIteration
+        return ln
+
+    def read(self, *a):
+        raise core.OutsideSubset("the reader takes the file as one string")
+
+    def readlines(self):
+        raise core.OutsideSubset("the reader takes all lines at once")
+
+
+class _SymCountField:
+    """the printed row count: int() of it is the symbolic N"""
+
+    def __init__(self, N):
+        self.N = N
+
+
+class _RuleRange:
+    """range(N) under the loop rule: entry state taken as found (position p0), ONE generic iteration k in [0, N) started from the invariant position p0 + c k, the
+    position after the body must be p0 + c (k + 1) for a constant c, then the exit state p0 + c N is installed.  Lists appended to in the body keep the generic
+    iteration's element as the representative of every iteration (one append per iteration is checked by the caller through the list lengths)."""
+
+    def __init__(self, st, fp):
+        self.st, self.fp = st, fp
+
+    def __iter__(self):
+        st, fp = self.st, self.fp
+        k = z3.Int("k%d" % len(st.loops))
+        st.facts += [k >= 0, k < st.N]
+        rec = {"k": k, "p0": fp.pos, "stride": None}
+        st.loops.append(rec)
+        rec["inject"] = lambda c: z3.simplify(rec["p0"] + c * k)
+        # the stride is not known before the body ran: start from a symbolic offset and read it off afterwards
+        off = z3.Int("off%d" % (len(st.loops) - 1))
+        rec["off"] = off
+        st.facts += [off >= 0, off == k]          # the layout has one line per row: the invariant is tried with stride 1 and the stride actually consumed is checked afterwards
+        fp.pos = z3.simplify(rec["p0"] + off)
+        yield k
+        consumed = z3.simplify(fp.pos - rec["p0"] - off)
+        if not z3.is_int_value(consumed) or consumed.as_long() < 0:
+            raise core.OutsideSubset("the number of lines one iteration consumes is not a constant (%s)" % consumed)
+        rec["stride"] = consumed.as_long()
+        fp.pos = z3.simplify(rec["p0"] + rec["stride"] * st.N)
+
+
+def table_loop_rule(s, ed):
+    """[deductive, all row counts] read_elast_data under the loop rule: the row count of the header is a symbolic N >= 1; each `for _ in range(nv)` loop of the real function
+    runs ONE generic iteration from the invariant state (file position = entry position + stride * k) and leaves the exit state; z3 places every position in the layout.
+    The offset symbol `off` stands for stride * k (the stride is read off after the body), so the generic line is `row off` with 0 <= off: the facts off = stride * k are
+    added once the stride is known and the line indices are re-read under them."""
+    import ast, inspect, textwrap
+    from cij.util import c_
+    from contracts.nonshear_env import patched
+    allpairs = [(i, j) for i in range(1, 7) for j in range(i, 7)]
+    rnd = random.Random(23)
+
+    def shape_ok():
+        """syntactic side conditions of the in-place rule: plain `for <name> in range(...)` loops without break / continue / return / else, whose body-bound names are not
+        read after the loop before being bound again"""
+        src = textwrap.dedent(inspect.getsource(ed.read_elast_data))
+        fn = ast.parse(src).body[0]
+        loops = [n for n in ast.walk(fn) if isinstance(n, (ast.For, ast.While))]
+        for lp in loops:
+            if isinstance(lp, ast.While) or lp.orelse or not (isinstance(lp.iter, ast.Call) and isinstance(lp.iter.func, ast.Name) and lp.iter.func.id == "range"):
+                return "loop at line %d is not a plain `for ... in range(...)`" % lp.lineno
+            for n in ast.walk(lp):
+                if isinstance(n, (ast.Break, ast.Continue, ast.Return)):
+                    return "loop at line %d contains %s" % (lp.lineno, type(n).__name__.lower())
+            bound = {n.id for b in lp.body for n in ast.walk(b) if isinstance(n, ast.Name) and isinstance(n.ctx, ast.Store)}
+            end = max(getattr(n, "end_lineno", lp.lineno) for n in ast.walk(lp) if hasattr(n, "lineno"))
+            later = sorted((n.lineno, n.col_offset, isinstance(n.ctx, ast.Store), n.id) for n in ast.walk(fn) if isinstance(n, ast.Name) and n.lineno > end and n.id in bound)
+            seen = set()
+            for ln, _, store, name in later:
+                if name in seen:
+                    continue
+                seen.add(name)
+                # an assignment `x = f(x)` lists the target first (smaller column), which is right only when the right-hand side does not read x: check that line
+                same_line_read = any((not st_) and nm == name and l2 == ln for l2, _, st_, nm in later)
+                if not store or same_line_read:
+                    return "name %r bound in the loop at line %d is read after it (line %d) before being bound again" % (name, lp.lineno, ln)
+        return None
+
+    def ob():
+        why = shape_ok()
+        if why:
+            raise core.OutsideSubset("in-place loop rule not applicable: " + why)
+        n = 0
+        for ncol in range(1, 22):
+            cols = rnd.sample(allpairs, ncol)
+            labels = [("%s%d%d" % (PREFIXES[(ncol + k) % len(PREFIXES)], I, J)) for k, (I, J) in enumerate(cols)]
+            for ending in ("lattice", "eof", "blank"):
+                N = z3.Int("N")
+                st = _RuleState(N, ncol, ending)
+                fp = _SymFile(st, labels)
+
+                def sym_int(x, *a):
+                    if isinstance(x, _SymCountField):
+                        return _SymInt(x.N)
+                    return _tint(x, *a)
+
+                def sym_float(x, *a):
+                    if isinstance(x, _SymCountField):
+                        raise core.OutsideSubset("float() of the row count")
+                    return _tfloat(x, *a)
+
+                def sym_range(*a):
+                    if len(a) == 1 and isinstance(a[0], _SymInt):
+                        return _RuleRange(st, fp)
+                    if any(isinstance(x, _SymInt) for x in a):
+                        raise core.OutsideSubset("range() with the row count in another position")
+                    return range(*a)
+                msg = None
+                try:
+                    with patched(ed, open=lambda *a, **k: fp, float=sym_float, int=sym_int, range=sym_range):
+                        d = ed.read_elast_data("abstract.dat")
+                except StopIteration:
+                    msg = "the reader runs past the end of the file"
+                except (IndexError, KeyError) as e:
+                    msg = "%s: %s" % (type(e).__name__, e)
+                except (AttributeError, TypeError, ValueError, z3.Z3Exception) as e:
+                    raise core.OutsideSubset("the code used an abstract line / field / count in a way the rule does not model (%s: %s)" % (type(e).__name__, e))
+                what = lambda x: getattr(x, "what", None)
+                if not msg:
+                    def is_idx(term, rec):
+                        # the generic line index is `off`, which stands for stride * k
+                        return rec["stride"] == 1 and z3.is_true(z3.simplify(z3.substitute(term, (rec["off"], rec["k"])) == rec["k"]))
+                    want_loops = 2 if ending == "lattice" else 1
+                    if what(d.vref) != ("vref",) or not (isinstance(d.nv, _SymInt) and d.nv.z is N) or what(d.cellmass) != ("mass",):
+                        msg = "header fields are not (reference volume, row count, cell mass) of the second line"
+                    elif len(st.loops) != want_loops:
+                        msg = "%d loop(s) over the row count executed, %d expected for a table ending with %s" % (len(st.loops), want_loops, ending)
+                    elif len(d.volumes) != 1:
+                        msg = "one iteration of the row loop appends %d entries to the volumes" % len(d.volumes)
+                    else:
+                        rec = st.loops[0]
+                        if not z3.is_true(z3.simplify(rec["p0"] == 3)) or rec["stride"] != 1:
+                            msg = "the row loop starts at line %s and consumes %s line(s) per iteration (rows start at line 3, one per iteration)" % (rec["p0"], rec["stride"])
+                        else:
+                            v = d.volumes[0]
+                            got = {k_: what(x) for k_, x in dict(v.static_elastic_modulus).items()}
+                            wv = what(v.volume)
+                            ok = wv is not None and wv[0] == "row" and wv[2] == 0 and is_idx(wv[1], rec) and set(got) == {c_(I, J) for (I, J) in cols} and all(
+                                got[c_(I, J)] is not None and got[c_(I, J)][0] == "row" and got[c_(I, J)][2] == j + 1 and is_idx(got[c_(I, J)][1], rec) for j, (I, J) in enumerate(cols))
+                            if not ok:
+                                msg = "iteration k of the row loop does not store the fields of row k (volume, then each component under the canonical key of its own column)"
+                    if not msg:
+                        if ending != "lattice":
+                            if len(d.lattice_parmeters) != 0:
+                                msg = "lattice rows read from a table that ends with %s" % ending
+                        else:
+                            rec = st.loops[1]
+                            if len(d.lattice_parmeters) != 1:
+                                msg = "one iteration of the lattice loop appends %d entries" % len(d.lattice_parmeters)
+                            elif not st.prove(rec["p0"] == 4 + N) or rec["stride"] != 1:
+                                msg = "the lattice loop starts at line %s with stride %s (lattice rows start at line 4 + N)" % (rec["p0"], rec["stride"])
+                            else:
+                                row = [what(x) for x in d.lattice_parmeters[0]]
+                                if len(row) != 3 or any(w is None or w[0] != "lat" or w[2] != j or not is_idx(w[1], rec) for j, w in enumerate(row)):
+                                    msg = "iteration k of the lattice loop does not store the three fields of lattice row k"
+                n += 1
+                if msg:
+                    r = core.refuted("looprule", "table of N rows x %d component column(s), ending %s: %s" % (ncol, ending, msg), witness_id="table-looprule:%d:%s" % (ncol, ending))
+                    # a concrete instance for the replay: N = 12 (and N = 1)
+                    rep = native_table(ed, 12, cols, ending)
+                    r.replay = rep if rep.get("reproduced") else native_table(ed, 1, cols, ending)
+                    return r
+        return core.proved("looprule", "%d symbolic runs (1-21 component columns x 3 endings), every row count N >= 1: the row loop starts at line 3 and iteration k stores the fields of "
+                                        "row k; the lattice loop starts at line 4 + N and iteration k stores lattice row k; header fields from line 1" % n,
+                           sample="Inv_rows(k): position = 3 + k, volumes = [Row(0..k-1)];  Inv_lattice(k): position = 4 + N + k, lattice = [Lat(0..k-1)]")
+    s.oblige("C17.read_elast_data.structure(loop rule, all row counts)", ob, ["elast_dat.read_elast_data"], kind="deductive",
+             fallback=lambda: {"reproduced": False, "note": "C17.read_elast_data.structure(1-12 rows ...) and the bounded run C17.static_table_parse decide"})
+
+
 def native_table(ed, nv, cols, ending):
     from cij.util import c_
     rnd = random.Random(nv * 100 + len(cols))
@@ -791,7 +1041,7 @@ def fill_command(s, ed, rnd, tmp):
 
 
 MANIFEST = {
-    "engine": "regauto", "category": "other",
+    "engine": "regauto", "category": "other", "engines_also": ["looprule"],
     "technique": "contract-based deductive verification of the readers' regular expressions (tagged-automata inclusion over all strings of the "
                  "writer's line languages) and of _find_modulus_key (AST path execution against contracts); bounded run-time contracts for the rest",
     "text": "Proved for all strings: (1) _find_modulus_key returns c_(group 1) of its search when it matches and the header unchanged otherwise "
@@ -802,7 +1052,9 @@ MANIFEST = {
             "on a file the real writer produced (recorded run). (3) The line and field STRUCTURE of read_elast_data is decided on abstract tables for every layout of 1-12 rows x "
             "1-21 component columns x three endings (lattice block, end of file, trailing blank line): the real reader runs on a stream of abstract lines whose split() yields "
             "abstract fields; reference volume, cell mass, each row's volume, each component under the canonical key of its own column and each lattice row are the fields of "
-            "their own lines (contents abstract, so independent of values; row count bounded by 12). Bounded: write_energy/read_energy round trip for random data sets (counts, P, V, E, "
+            "their own lines (contents abstract, so independent of values; row count bounded by 12). (4) For EVERY row count N >= 1 (loop rule applied in place): the header's count is a symbolic N, "
+            "each `for _ in range(nv)` loop of the real read_elast_data runs one generic iteration k from the invariant file position (3 + k for the rows, 4 + N + k for the lattice block; "
+            "z3 places each position in the layout) and leaves the exit position; iteration k stores the fields of row k / lattice row k, for 1-21 columns and the three endings. Bounded: write_energy/read_energy round trip for random data sets (counts, P, V, E, "
             "frequencies, q-coordinates, weights to the written precision), read_elast_data on rendered tables, and `cij fill` on nine systems.",
     "note": "A-RE (backtracking priority semantics, cross-checked against CPython every run), A-PRINTF, A-SPLIT; line structure / counts and "
             "float formatting bounded: 40/60/9 (quick) and 1500/2000/108 (thorough) cases, never counted as discharged; rendered tables carry full 17-digit numbers in every "
